@@ -5,6 +5,7 @@ import (
 	"bufio"
 	"encoding/json"
 	"fmt"
+	"os"
 	"path/filepath"
 	"reflect"
 	"strings"
@@ -30,9 +31,144 @@ type In struct {
 	BufSize  int   // size of the caller's bufio.Reader (0 = default)
 	Delivery int   // gen.Delivery mode
 	Devs     []string
+	// Via selects the entry point: "" = Parse<Kind>(reader, path); otherwise Parse<Kind>File with the document on disk
+	// and the path given as "file-abs" (absolute), "file-rel" (bare name, working directory = its directory),
+	// "file-dotrel" (./incoming/<name> from the parent) or "file-parent" (../<name> from a subdirectory)
+	Via string `json:",omitempty"`
 }
 
-const docPath = "/srv/incoming/upload/hello_2.10-1.dsc"
+const readerDocPath = "/srv/incoming/upload/hello_2.10-1.dsc"
+
+var fileVias = []string{"file-abs", "file-rel", "file-dotrel", "file-parent"}
+
+var (
+	fileRootOnce sync.Once
+	fileRootDir  string
+	cwdMu        sync.Mutex // the working directory is process-wide: file-entry executions are serialised
+)
+
+// fileRoot is a scratch directory <tmp>/verif-c10-<pid>/ with incoming/ and incoming/sub/ (removed by Run at the end).
+func fileRoot() string {
+	fileRootOnce.Do(func() {
+		d, err := os.MkdirTemp("", "verif-c10-")
+		if err != nil {
+			panic(err)
+		}
+		if r, err := filepath.EvalSymlinks(d); err == nil {
+			d = r
+		}
+		if err := os.MkdirAll(filepath.Join(d, "incoming", "sub"), 0o755); err != nil {
+			panic(err)
+		}
+		fileRootDir = d
+	})
+	return fileRootDir
+}
+
+// docPathOf is the absolute path the parsed document must carry as its Filename.
+func docPathOf(in In) string {
+	if in.Via == "" {
+		return readerDocPath
+	}
+	return filepath.Join(fileRoot(), "incoming", "hello_2.10-1."+in.Kind)
+}
+
+type getDSCResult struct{ err, filename, source, version string }
+
+var getDSCResults sync.Map // *control.Changes -> getDSCResult (taken while the files were on disk)
+
+// baselineIn is the kind's full baseline document: every field present in its first variant.
+func baselineIn(kind string) In {
+	kd := kindByName(kind)
+	in := In{Kind: kind}
+	for _, t := range kd.tables(kd.nBase) {
+		in.Choices = append(in.Choices, make([]int, len(t)))
+	}
+	for range extraKeys(kind) {
+		in.Extra = append(in.Extra, 0)
+	}
+	return in
+}
+
+// parseFile puts text on disk and calls the kind's Parse...File entry point with the path form in.Via selects.
+func parseFile(in In, text string) (paras []reflect.Value, err error) {
+	abs := docPathOf(in)
+	cwdMu.Lock()
+	defer cwdMu.Unlock()
+	if err := os.WriteFile(abs, []byte(text), 0o644); err != nil {
+		return nil, fmt.Errorf("harness: %v", err)
+	}
+	defer os.Remove(abs)
+	old, err := os.Getwd()
+	if err != nil {
+		return nil, fmt.Errorf("harness: %v", err)
+	}
+	defer os.Chdir(old)
+	arg, wd := abs, ""
+	switch in.Via {
+	case "file-rel":
+		arg, wd = filepath.Base(abs), filepath.Dir(abs)
+	case "file-dotrel":
+		arg, wd = "./incoming/"+filepath.Base(abs), fileRoot()
+	case "file-parent":
+		arg, wd = "../"+filepath.Base(abs), filepath.Join(filepath.Dir(abs), "sub")
+	}
+	if wd != "" {
+		if err := os.Chdir(wd); err != nil {
+			return nil, fmt.Errorf("harness: %v", err)
+		}
+	}
+	switch in.Kind {
+	case "dsc":
+		d, e := control.ParseDscFile(arg)
+		if e != nil {
+			return nil, e
+		}
+		return []reflect.Value{reflect.ValueOf(d).Elem()}, nil
+	case "changes":
+		c, e := control.ParseChangesFile(arg)
+		if e != nil {
+			return nil, e
+		}
+		// the source package the upload lists sits next to the .changes: GetDSC must find it from any working directory
+		dscText, _ := render(baselineIn("dsc"))
+		dscAbs := filepath.Join(filepath.Dir(abs), h1.name)
+		if err := os.WriteFile(dscAbs, []byte(dscText), 0o644); err != nil {
+			return nil, fmt.Errorf("harness: %v", err)
+		}
+		defer os.Remove(dscAbs)
+		var res getDSCResult
+		if p, msg := mc.Guard(func() {
+			d, err := c.GetDSC()
+			if err != nil {
+				res.err = err.Error()
+				if d != nil {
+					res.err += " (together with a value)"
+				}
+				return
+			}
+			res.filename, res.source, res.version = d.Filename, d.Source, d.Version.String()
+		}); p {
+			res.err = "panic: " + msg
+		}
+		getDSCResults.Store(c, res)
+		return []reflect.Value{reflect.ValueOf(c).Elem()}, nil
+	case "control":
+		c, e := control.ParseControlFile(arg)
+		if e != nil {
+			return nil, e
+		}
+		if c.Filename != abs {
+			return nil, fmt.Errorf("Control.Filename is %q, the document is %q", c.Filename, abs)
+		}
+		out := []reflect.Value{reflect.ValueOf(&c.Source).Elem()}
+		for i := range c.Binaries {
+			out = append(out, reflect.ValueOf(&c.Binaries[i]).Elem())
+		}
+		return out, nil
+	}
+	return nil, fmt.Errorf("harness: no file entry point for kind %s", in.Kind)
+}
 
 type kindDef struct {
 	name  string
@@ -159,6 +295,10 @@ func render(in In) (string, [][]FSpec) {
 
 // parse runs the kind's typed parser and returns the decoded paragraphs as reflect values.
 func parse(in In, text string) (paras []reflect.Value, err error) {
+	if in.Via != "" {
+		return parseFile(in, text)
+	}
+	docPath := docPathOf(in)
 	var br *bufio.Reader
 	rd := gen.Delivery(text, in.Delivery)
 	if in.BufSize > 0 {
@@ -224,7 +364,7 @@ func parse(in In, text string) (paras []reflect.Value, err error) {
 		if e := control.Unmarshal(&w, br); e != nil {
 			return nil, e
 		}
-		w.DSC.Filename = docPath
+		w.DSC.Filename = docPathOf(in)
 		return []reflect.Value{reflect.ValueOf(&w.DSC).Elem()}, nil
 	case "embedded-sources":
 		var l []WrappedSource
@@ -340,6 +480,7 @@ func wantList(f FSpec, c int) []string {
 }
 
 func accessors(scen string, in In, tables [][]FSpec, paras []reflect.Value) []*mc.Violation {
+	docPath := docPathOf(in)
 	var vs []*mc.Violation
 	var feats []string
 	bad := func(name, w, g string) {
@@ -434,6 +575,25 @@ func accessors(scen string, in In, tables [][]FSpec, paras []reflect.Value) []*m
 		if g := Observe(paras[0].FieldByName("Files"), "chfiles"); g != want(ff, fc) {
 			bad("changes.Files after AbsFiles()", want(ff, fc), g)
 		}
+		if c.Filename != docPath {
+			bad("changes.Filename", docPath, c.Filename)
+		}
+		if r, ok := getDSCResults.LoadAndDelete(c); ok {
+			res := r.(getDSCResult)
+			hasDsc := false
+			if fc >= 0 {
+				for _, l := range ff.Vars[fc].Lines[1:] {
+					hasDsc = hasDsc || strings.HasSuffix(strings.Fields(l)[4], ".dsc")
+				}
+			}
+			w := getDSCResult{err: "an error: the upload lists no .dsc"}
+			if hasDsc {
+				w = getDSCResult{filename: filepath.Join(filepath.Dir(docPath), h1.name), source: "hello", version: "2.10-1"}
+			}
+			if (res.err != "") != !hasDsc || (hasDsc && res != w) {
+				bad("changes.GetDSC()", fmt.Sprintf("%+v", w), fmt.Sprintf("%+v", res))
+			}
+		}
 	case "control":
 		s := paras[0].Addr().Interface().(*control.SourceParagraph)
 		mf, mc0 := choiceOf(in, tables, 0, "Maintainer")
@@ -500,68 +660,85 @@ func accessors(scen string, in In, tables [][]FSpec, paras []reflect.Value) []*m
 
 // explore enumerates all documents of a kind with at most k deviations from the full baseline.
 // The same tree is walked by every shard; a shard evaluates the leaves whose index is congruent to it.
+// buildIn makes the choices for one document of kind kd on the explorer's choice tree: paragraph count, per field the
+// baseline variant / absent / another variant, extra dependency fields, and (env) the entry point, the caller's buffer
+// size and the byte delivery. Every non-default choice is one deviation.
+func buildIn(kd *kindDef, x *mc.X, env bool) (In, []string) {
+	var devs []string
+	dev := func(n int, label string) int {
+		c := x.Deviate(n, label)
+		if c != 0 {
+			devs = append(devs, fmt.Sprintf("%s=%d", label, c))
+		}
+		return c
+	}
+	n := kd.nBase
+	if kd.nMax > kd.nMin {
+		// paragraph count: baseline first, then the others
+		c := dev(kd.nMax-kd.nMin+1, "paragraphs")
+		order := []int{kd.nBase}
+		for v := kd.nMin; v <= kd.nMax; v++ {
+			if v != kd.nBase {
+				order = append(order, v)
+			}
+		}
+		n = order[c]
+	}
+	tables := kd.tables(n)
+	in := In{Kind: kd.name}
+	for pi, t := range tables {
+		row := make([]int, len(t))
+		for fi, f := range t {
+			// 0 = baseline variant, 1 = absent, 2.. = other variants
+			c := dev(1+len(f.Vars), fmt.Sprintf("p%d.%s", pi, f.Key))
+			switch {
+			case c == 0:
+				row[fi] = 0
+			case c == 1:
+				row[fi] = -1
+			default:
+				row[fi] = c - 1
+			}
+		}
+		in.Choices = append(in.Choices, row)
+	}
+	for range extraKeys(kd.name) {
+		c := dev(1+len(depVarsOnce), "extra-dep")
+		in.Extra = append(in.Extra, c-1+0)
+	}
+	// extra: choice 0 = baseline = variant 0 present
+	for i := range in.Extra {
+		if in.Extra[i] == -1 {
+			in.Extra[i] = 0
+		} else if in.Extra[i] == 0 {
+			in.Extra[i] = -1
+		}
+	}
+	if !env {
+		in.Devs = devs
+		return in, devs
+	}
+	if kd.name == "dsc" || kd.name == "changes" || kd.name == "control" {
+		if c := dev(1+len(fileVias), "entry"); c > 0 {
+			in.Via = fileVias[c-1]
+		}
+	}
+	switch dev(3, "bufio-size") {
+	case 1:
+		in.BufSize = 16
+	case 2:
+		in.BufSize = 65536
+	}
+	in.Delivery = dev(3, "delivery")
+	in.Devs = devs
+	return in, devs
+}
+
 func explore(scen string, kd *kindDef, k int, shard, shards int, st *mc.Stats) {
 	leaf := -1
 	var owned int64
 	_, div := mc.Explore(k, nil, func(x *mc.X) {
-		var devs []string
-		dev := func(n int, label string) int {
-			c := x.Deviate(n, label)
-			if c != 0 {
-				devs = append(devs, fmt.Sprintf("%s=%d", label, c))
-			}
-			return c
-		}
-		n := kd.nBase
-		if kd.nMax > kd.nMin {
-			// paragraph count: baseline first, then the others
-			c := dev(kd.nMax-kd.nMin+1, "paragraphs")
-			order := []int{kd.nBase}
-			for v := kd.nMin; v <= kd.nMax; v++ {
-				if v != kd.nBase {
-					order = append(order, v)
-				}
-			}
-			n = order[c]
-		}
-		tables := kd.tables(n)
-		in := In{Kind: kd.name}
-		for pi, t := range tables {
-			row := make([]int, len(t))
-			for fi, f := range t {
-				// 0 = baseline variant, 1 = absent, 2.. = other variants
-				c := dev(1+len(f.Vars), fmt.Sprintf("p%d.%s", pi, f.Key))
-				switch {
-				case c == 0:
-					row[fi] = 0
-				case c == 1:
-					row[fi] = -1
-				default:
-					row[fi] = c - 1
-				}
-			}
-			in.Choices = append(in.Choices, row)
-		}
-		for range extraKeys(kd.name) {
-			c := dev(1+len(depVarsOnce), "extra-dep")
-			in.Extra = append(in.Extra, c-1+0)
-		}
-		// extra: choice 0 = baseline = variant 0 present
-		for i := range in.Extra {
-			if in.Extra[i] == -1 {
-				in.Extra[i] = 0
-			} else if in.Extra[i] == 0 {
-				in.Extra[i] = -1
-			}
-		}
-		switch dev(3, "bufio-size") {
-		case 1:
-			in.BufSize = 16
-		case 2:
-			in.BufSize = 65536
-		}
-		in.Delivery = dev(3, "delivery")
-		in.Devs = devs
+		in, devs := buildIn(kd, x, true)
 		leaf++
 		if leaf%shards != shard {
 			return
@@ -620,6 +797,12 @@ func Run(r *mc.Run) {
 	r.Rule = "six document kinds (.dsc, .changes, debian/control, Packages, Sources, deb control), each rendered in the Debian layout from a per-field model; full baseline (every field present) and every document with <= k deviations (quick 2, thorough 3) among: field absent, each alternative rendering/value of a field (list lengths, folded lists, several uploaders, architecture sets, dependency shapes, file counts), paragraph count, size of the caller's bufio.Reader (default/16/64K), byte delivery; non-trivial = at least one deviation; distinct by construction"
 	r.Assume = []string{"expected dependency structures come from the independent recogniser (gen.Recognise), versions and architectures from the reference denotations of C03/C06", "Description and other multi-line scalars are compared with the reader's logical-line value (C07 reference)"}
 	r.Extra["struct_fields_not_covered_by_the_model"] = uncovered()
+	r.Extra["entry_points"] = "Parse<Kind>(reader, path) by default; for .dsc, .changes and debian/control one deviation selects Parse<Kind>File with the document on disk and the path given absolute / as a bare name / as ./incoming/<name> / as ../<name> (working directory changed under a lock)"
+	defer func() {
+		if fileRootDir != "" {
+			os.RemoveAll(fileRootDir)
+		}
+	}()
 	k := r.Pick(2, 3)
 	for i := range kinds {
 		kd := &kinds[i]
@@ -640,5 +823,11 @@ func Replay(scenario string, raw json.RawMessage) []*mc.Violation {
 	if mc.UnmarshalInput(raw, &in) != nil || kindByName(in.Kind) == nil {
 		return nil
 	}
-	return check(scenario, in)
+	vs := check(scenario, in)
+	if in.Via != "" && fileRootDir != "" {
+		os.RemoveAll(fileRootDir)
+		fileRootOnce = sync.Once{}
+		fileRootDir = ""
+	}
+	return vs
 }
